@@ -595,3 +595,28 @@ func post_messageCodec_EncodeTo(e *binary.Encoder, res0 error) bool {
 		vs.TraceArg[uint64](vs.TraceFindNth("Encoder).WriteUvarint", 3), 1) == vs.TraceRet[uint64](vs.TraceFind("Value).Uint"), 0) &&
 		vs.TraceFindNth("Encoder).Write", 2) < vs.TraceFindNth("Encoder).WriteUvarint", 3)
 }
+
+// ---------------------------------------------------------------------------------------------------------
+// Counters.All (C08: "removes every subscription that connection held"; C18: one 'unsubscribe' per subscription):
+// the list Close walks over has one entry for every key of the bookkeeping map - none left out, none twice -
+// carrying that entry's ssid, channel and count. The loop ranges over a map: explored for up to two held filters
+// (stated bounded). (That two different filters may share one key is the known finding lemmaFilterKeyInjective.)
+//@ verify (*Counters).All pre=pre_Counters_All post=post_Counters_All_sound,post_Counters_All_complete props=C08,C02,C18
+//@ loop (*Counters).All 0 unroll 2 bounded
+func pre_Counters_All(s *Counters) bool { return specRep(s) }
+func specIsCopyOf(c Counter, m *Counter) bool {
+	return c.Counter == m.Counter && len(c.Ssid) == len(m.Ssid) && (len(c.Ssid) == 0 || vs.OffsetOf(c.Ssid, m.Ssid) == 0) &&
+		len(c.Channel) == len(m.Channel) && (len(c.Channel) == 0 || vs.OffsetIn(c.Channel, m.Channel) == 0)
+}
+func post_Counters_All_sound(s *Counters, res0 []Counter) bool {
+	m := s.m
+	return len(res0) <= 2 &&
+		(len(res0) < 1 || !vs.ForallKey(m, func(k uint32) bool { return !vs.Has(m, k) || !specIsCopyOf(res0[0], m[k]) })) &&
+		(len(res0) < 2 || !vs.ForallKey(m, func(k uint32) bool { return !vs.Has(m, k) || !specIsCopyOf(res0[1], m[k]) }))
+}
+func post_Counters_All_complete(s *Counters, res0 []Counter) bool {
+	m := s.m
+	return vs.ForallKey(m, func(k uint32) bool {
+		return !vs.Has(m, k) || (len(res0) >= 1 && specIsCopyOf(res0[0], m[k])) || (len(res0) >= 2 && specIsCopyOf(res0[1], m[k]))
+	})
+}
